@@ -249,7 +249,39 @@ pub fn in_place<F: FnOnce() -> Vec<String>>(f: F) -> Vec<String> {
     }
 }
 
+type Job = Box<dyn FnOnce() -> Vec<String> + Send + 'static>;
+static WORKER: std::sync::OnceLock<std::sync::Mutex<(std::sync::mpsc::Sender<Job>, std::sync::mpsc::Receiver<Vec<String>>)>> =
+    std::sync::OnceLock::new();
+
+/// HX_SAME_THREAD: every case of this process runs on ONE long-lived thread, one after another, instead of a fresh thread each -
+/// whatever an interpreter leaves behind in thread-local storage is then seen by the interpreters of all later cases
+fn on_the_one_thread(f: Job) -> Vec<String> {
+    let w = WORKER.get_or_init(|| {
+        let (tx, rx) = std::sync::mpsc::channel::<Job>();
+        let (rtx, rrx) = std::sync::mpsc::channel::<Vec<String>>();
+        std::thread::Builder::new()
+            .stack_size(1 << 30)
+            .spawn(move || {
+                for job in rx {
+                    let r = match catch_unwind(AssertUnwindSafe(job)) {
+                        Ok(v) => v,
+                        Err(p) => vec![panic_message(p)],
+                    };
+                    rtx.send(r).ok();
+                }
+            })
+            .unwrap();
+        std::sync::Mutex::new((tx, rrx))
+    });
+    let g = w.lock().unwrap();
+    g.0.send(f).unwrap();
+    g.1.recv().unwrap_or_else(|_| vec!["P thread".to_string()])
+}
+
 pub fn on_fresh_thread_sized<F: FnOnce() -> Vec<String> + Send + 'static>(stack: usize, f: F) -> Vec<String> {
+    if std::env::var("HX_SAME_THREAD").is_ok() {
+        return on_the_one_thread(Box::new(f));
+    }
     let h = std::thread::Builder::new()
         .stack_size(stack)
         .spawn(move || match catch_unwind(AssertUnwindSafe(f)) {
